@@ -763,6 +763,23 @@ func (s *c11) dupSignature(b, h *blk, same bool, ti *txInfo, gets map[string]str
 		}
 		if h.finalGen != s.gen {
 			sb.WriteString(",holder-flushed-before-restart")
+			// The bound a restarted manager keeps for "nothing newer than this is in the database" is
+			// learnt only from lists it evicted itself. It can wrongly rule out this timestamp only if
+			// some list finalised after the restart has a window that ends before it (block timestamps
+			// do not decrease, so that needs a threshold lowered in between). Without such a list the
+			// known restart defect cannot explain the miss.
+			newer := false
+			for _, l := range s.blocks {
+				if l != h && l.state == stFinal && l.finalGen == s.gen && l.hi() < ti.ts {
+					newer = true
+					break
+				}
+			}
+			if newer {
+				sb.WriteString(",newer-window-ends-before-ts")
+			} else {
+				sb.WriteString(",no-newer-window-ends-before-ts")
+			}
 		}
 	} else {
 		sb.WriteString("holder=unfinalised")
